@@ -61,12 +61,13 @@ def run(ctx):
     else:
         run_wire(ctx, binp, corr_broken, ctx.budget(8000, 60000))
     # --- end-to-end oracle (network API + white-box quiescence only) ----------------------------
-    ebin = ctx.go_test_binary("nsqd", ["e1/e2e_test.go"], "e1e2e")
+    ebin = ctx.go_test_binary("nsqd", ["e1/e1_helpers_test.go", "e1/e2e_test.go", "e1/pubsub_test.go"], "e1e2e")
     if not ebin:
         ctx.broken_ties.append("end-to-end oracle e1/e2e_test.go does not compile against the current tree")
         corr_broken.append("e2e harness build")
     else:
         run_e2e(ctx, ebin, corr_broken, combos=ctx.budget(24, 0), n=ctx.budget(40, 30))
+        run_pubsub(ctx, ebin, corr_broken, ctx.budget(40, 400))
     # --- search phase ---------------------------------------------------------------------------
     if (ctx.broken_ties or corr_broken) and not ctx.violations:
         limit = ctx.budget(60, 600)
@@ -217,6 +218,25 @@ def textmpub_expect(s, max_msg, max_body, content_length_known):
             return "MSG_TOO_BIG"
         out.append(p)
     return "ok %d %s" % (len(out), hexlist(out))
+
+
+def run_pubsub(ctx, ebin, corr_broken, n):
+    """One connection that subscribes AND publishes, its length prefixes split across TCP segments
+    with a frame to the same connection forced in between."""
+    rc, out = ctx.run_cmd([ebin, "-test.run", "^TestVerifPubSubSplit$", "-test.count=1", "-test.timeout=300s"],
+                          timeout=330, env={"VERIF_SEED": ctx.seed, "VERIF_N": n, "VERIF_OUT": ctx.work})
+    bad = [l for l in out.splitlines() if l.startswith("ORACLE-FAIL")]
+    if bad:
+        ctx.violation("pubsub:split-length", bad[0][:700], "TestVerifPubSubSplit with VERIF_SEED=%s VERIF_N=%s\n%s\n"
+                      % (ctx.seed, n, "\n".join(bad)))
+        return
+    m = re.search(r"PUBSUB-OK cases=(\d+).*", out)
+    if m:
+        ctx.evaluations += int(m.group(1))
+        ctx.corr["pubsub_split"] = m.group(0)
+    elif "no tests to run" not in out:
+        ctx.log("TestVerifPubSubSplit did not complete (rc=%s):\n%s" % (rc, out[-1500:]))
+        corr_broken.append("pubsub harness exit %s" % rc)
 
 
 def run_e2e(ctx, ebin, corr_broken, combos, n, search=False):
